@@ -424,6 +424,18 @@ func generate(r *hx.Rng, worlds, n int) []cs {
 		jk, _ := rr.VerifEncodeJSONKey(tb, k)
 		g.add("JK", H(tb), H(k))
 		g.add("DJK", H(mutate(r, jk)))
+		stopf := "0"
+		if r.Chance(0.2) {
+			stopf = "1"
+		}
+		g.add("HK", H(tb), H(k), fz(seq), H(sub), H(advName(r)), stopf)
+		if r.Chance(0.5) {
+			hk, _ := rr.VerifEncodeHsetIndexNumberKey(tb, k, seq, sub, false)
+			g.add("DHK", H(mutate(r, hk)))
+		} else {
+			hk, _ := rr.VerifEncodeHsetIndexStringKey(tb, k, sub, advName(r), false)
+			g.add("DHK", H(mutate(r, hk)))
+		}
 		g.add("XK", fmt.Sprint(dt), H(k), fz(seq))
 		if r.Chance(0.5) {
 			g.add("DXK", H(mutate(r, rr.VerifExpEncodeTimeKey(dt, k, seq))))
@@ -434,7 +446,10 @@ func generate(r *hx.Rng, worlds, n int) []cs {
 	// decoders on short raw strings (truncation faults)
 	for i := 0; i < n/4; i++ {
 		raw := r.Bytes(r.Pick(6), []byte{rr.HashType, rr.ListType, rr.ZScoreType, rr.BitmapType, rr.JSONType, 0, 1, ':', 3})
-		for _, k := range []string{"DCS", "DLK", "DZS", "DBK", "DJK", "DVK", "DMK", "DTM", "DXK", "MD", "DB"} {
+		if r.Chance(0.3) {
+			raw = append([]byte{rr.IndexDataType, 1}, r.Bytes(r.Pick(12), []byte{0, 1, ':', 3, 'a'})...)
+		}
+		for _, k := range []string{"DCS", "DLK", "DZS", "DBK", "DJK", "DVK", "DMK", "DTM", "DXK", "MD", "DB", "DHK"} {
 			g.add(k, H(raw))
 		}
 		g.add("DTP", fmt.Sprint(raw0(raw)), H(raw))
